@@ -350,6 +350,12 @@ class Normalizer:
     def try_inline_fn(self, unit, body, bb):
         t = body["blocks"][bb]["term"]
         c = t["callee"]
+        if c.get("def") == "core::convert::Into::into" and len(c.get("targs", [])) == 2 and t.get("target") is not None:
+            # `x.into()` goes through std's blanket impl to `U::from(x)`: when that `impl From<T> for U` is workspace code
+            # (a new private conversion), it is the function that runs
+            cand = "<%s as core::convert::From<%s>>::from" % (c["targs"][1], c["targs"][0])
+            if self.lookup(unit, cand)[1] is not None and cand not in self.keep:
+                c = dict(c, resolved=cand, ikind="item", targs=[])
         if c.get("ikind") != "item" or not c.get("resolved") or t.get("target") is None:
             return False
         deff = c["resolved"]
